@@ -1,5 +1,5 @@
 #include <stdint.h>
-static __thread struct { long lo[8]; int a; long z; char buf[5]; long hi[8]; } sd = { .lo = {1, 2, 3, 4, 5, 6, 7, 8}, .a = 171, .z = 414, .hi = {9, 8, 7, 6, 5, 4, 3, 2} };
+static __thread struct { long lo[8]; int a; long z; char buf[5]; long hi[8]; } sd = { .lo = {1, 2, 3, 4, 5, 6, 7, 8}, .a = 404, .z = 38, .hi = {9, 8, 7, 6, 5, 4, 3, 2} };
 static __thread struct { long lo[8]; long z; char buf[1]; long hi[8]; } sb;
 int tlsl_get(void){ return sd.a * 3 + (int)sb.z + (int)sd.z; }
 void tlsl_bump(int v){ sd.a ^= v; sd.buf[4] = (char)v; sb.z += sd.z + 1; sb.buf[0] += 2; }
